@@ -47,10 +47,18 @@ func c02Faults(counts map[string]int, regs, reports int, tier string) []ATEpisod
 		for _, nfail := range []int{1, 2, 4, 5} {
 			var rules []simtc.Rule
 			for k := 1; k <= nfail; k++ {
-				rules = append(rules, simtc.Rule{Code: simtc.TBranchReport, Nth: k, Action: simtc.ActFail})
+				// the failure reports (a branch of the program that committed earlier
+				// has reported phase-one-done before)
+				rules = append(rules, simtc.Rule{Code: simtc.TBranchReport, Nth: k, Action: simtc.ActFail, Status: simtc.BSPhaseOneFailed})
 			}
 			// combined with a failing COMMIT so that a PhaseOne_Failed report is due
 			add(fmt.Sprintf("commit-error+report-fails-x%d", nfail), []DBFault{{Class: "commit", Nth: 1, Kind: "error", Num: 1213}}, rules)
+			// the same with the undo-log insert failing: here the local transaction
+			// is still open when the report is due, so a client that forgets the
+			// local rollback hands the connection back inside it
+			if counts["insert-undo"] > 0 && (nfail == 1 || nfail == 5) {
+				add(fmt.Sprintf("undo-insert-error+report-fails-x%d", nfail), []DBFault{{Class: "insert-undo", Nth: 1, Kind: "error", Num: 1406}}, rules)
+			}
 		}
 	}
 	return out
